@@ -34,7 +34,15 @@ def Sh (s : Ed) : Prop :=
   LogFine S (edR U cfg) cfg.prompt s.render →
     ShownP S (edR U cfg) cfg.prompt s.render s.layoutCursor s.line.buf s.line.pos s.hint
 
+/-- some prompt (the own one, or a search prompt), the line and the cursor are shown -/
+def ShA (s : Ed) : Prop :=
+  LogFine S (edR U cfg) cfg.prompt s.render →
+    ShownA S (edR U cfg) cfg.prompt s.render s.layoutCursor s.line.buf s.line.pos s.hint
+
 variable {S U cfg}
+
+theorem Sh.any {s : Ed} (h : Sh S U cfg s) : ShA S U cfg s := fun hf => (h hf).any
+theorem ShA.inv {s : Ed} (h : ShA S U cfg s) : LogInv S U cfg s := fun hf => (h hf).dirty
 
 theorem Sh.tsh {s : Ed} (h : Sh S U cfg s) : TSh S U cfg s := fun hf => (h hf).text
 theorem TSh.inv {s : Ed} (h : TSh S U cfg s) : LogInv S U cfg s := fun hf => (h hf).dirty
@@ -70,6 +78,11 @@ theorem LogInv.of_lk {s s' : Ed} (h : LogInv S U cfg s) (hk : s'.lk = s.lk) : Lo
 
 theorem Sh.of_sk {s s' : Ed} (h : Sh S U cfg s) (hk : s'.sk = s.sk) : Sh S U cfg s' := by
   simp only [Ed.sk, Prod.mk.injEq] at hk; exact h.of_eq hk.1 hk.2.1 hk.2.2.1 hk.2.2.2.1 hk.2.2.2.2
+
+theorem ShA.of_sk {s s' : Ed} (h : ShA S U cfg s) (hk : s'.sk = s.sk) : ShA S U cfg s' := by
+  simp only [Ed.sk, Prod.mk.injEq] at hk
+  unfold ShA at *
+  rw [hk.1, hk.2.1, hk.2.2.1, hk.2.2.2.1, hk.2.2.2.2]; exact h
 
 theorem logFine_cons {R : RCfg} {p : Text} {op : RenderOp} {log : List RenderOp}
     (h : LogFine S R p (op :: log)) : OpFine S R p op ∧ LogFine S R p log :=
@@ -156,10 +169,40 @@ theorem inv_refreshDyn {s s' : Ed} (h : LogInv S U cfg s) (p : Text) (info : Opt
   obtain ⟨hop, hf'⟩ := logFine_cons hf
   obtain ⟨b, a, hs⟩ := hop.2.1
   obtain ⟨e1, e2⟩ := splitAtByte_some hs
-  have := dirty_refresh_dyn (S := S) (R := edR U cfg) (prompt := cfg.prompt) hc hprompt (h hf') p b a info
-    (by rw [← e1, ← e2]; exact hop)
+  obtain ⟨rs, g, hrep, hcur, hpl, _⟩ := dirty_refresh_dyn (S := S) (R := edR U cfg) (prompt := cfg.prompt) hc hprompt
+    (h hf') p b a info (by rw [← e1, ← e2]; exact hop)
   rw [hr, hl, cursorFor_split _ hs, e1, e2]
-  exact this
+  exact ⟨rs, g, hrep, hcur, hpl⟩
+
+/-- a repaint under the prompt of an incremental search: that prompt, the line and the cursor are shown -/
+theorem sha_refreshDyn {s s' : Ed} (h : LogInv S U cfg s) (p : Text) (hp : C02_IsSearchPrompt p) (info : Option Text)
+    (hr : s'.render = .refresh (some p) s.line.buf s.line.pos info :: s.render)
+    (hl : s'.layoutCursor = cursorFor S U cfg (promptSizeOf S U cfg p) s)
+    (hline : s'.line = s.line) (hh : s'.hint = info) : ShA S U cfg s' := by
+  intro hf
+  rw [hr] at hf
+  obtain ⟨hop, hf'⟩ := logFine_cons hf
+  obtain ⟨b, a, hs⟩ := hop.2.1
+  obtain ⟨e1, e2⟩ := splitAtByte_some hs
+  obtain ⟨rs, g, hrep, hcur, hpl, hpr, hsp, hhi⟩ := dirty_refresh_dyn (S := S) (R := edR U cfg) (prompt := cfg.prompt)
+    hc hprompt (h hf') p b a info (by rw [← e1, ← e2]; exact hop)
+  rw [hr, hl, hline, hh, cursorFor_split _ hs, e1, e2]
+  exact ⟨rs, g, hrep, hcur, hpl, Or.inr (by rw [hpr]; exact hp), hsp, Or.inl hhi⟩
+
+theorem wp_refreshPromptAndLine_sha {s : Ed} (p : Text) (hp : C02_IsSearchPrompt p) (h : LogInv S U cfg s) :
+    wp (refreshPromptAndLine S U cfg p) (fun _ s' => ShA S U cfg s')
+      (fun _ s' => LogOK S U cfg s') s := by
+  unfold refreshPromptAndLine
+  rw [wp_bind]
+  rcases updateHint_cases (cfg := cfg) s with ⟨h1, n1, e1⟩ | ⟨n1, e1⟩
+  · refine wp_of_eq_ok e1 ?_
+    rw [wp_bind]
+    obtain ⟨b, hc', e2⟩ := highlightCharStep_cases (cfg := cfg) { s with hint := h1, hintCalls := n1 }
+    refine wp_of_eq_ok e2 ?_
+    simp only [wp_bind, wp_setRefreshLayout, wp_logRender]
+    exact sha_refreshDyn hc hprompt (s := { s with hint := h1, hintCalls := n1, highlightChar := hc' })
+      (h.of_eq rfl rfl) p hp h1 rfl rfl rfl rfl
+  · unfold wp; rw [e1]; exact h.ok.of_eq rfl
 
 /-- a repaint under a dynamic prompt (`(arg: n)`): the log stays coherent; the own prompt is off the screen
     until the next `refreshLine` -/
@@ -231,6 +274,25 @@ theorem wp_customBinding_sh {s : Ed} (keys : List KeyEvent) (n : Nat) (p : Bool)
     intro hf
     obtain ⟨_, hf'⟩ := logFine_cons hf
     exact shown_sync hc hprompt (h hf')
+
+/-- the callback while a search prompt may be on display -/
+theorem wp_customBinding_sha {s : Ed} (keys : List KeyEvent) (n : Nat) (p : Bool) (h : ShA S U cfg s) :
+    wp (customBinding cfg keys n p) (fun _ s' => ShA S U cfg s') (fun _ s' => LogOK S U cfg s') s := by
+  cases hfind : cfg.binds.find? (fun b => b.1 == keys) with
+  | some bc =>
+    obtain ⟨x, c⟩ := bc
+    have e : customBinding cfg keys n p s = .ok (some c, s) := by unfold customBinding; rw [hfind]
+    exact wp_of_eq_ok e h
+  | none =>
+    have e : customBinding cfg keys n p s = .ok (none, { s with
+        obs := { line := s.line.buf, pos := s.line.pos, mode := modeName cfg s, hasHint := s.hint.isSome,
+                 keys, n, positive := p } :: s.obs,
+        render := .sync s.line.buf s.line.pos s.hint :: s.render }) := by
+      unfold customBinding; rw [hfind]
+    refine wp_of_eq_ok e ?_
+    intro hf
+    obtain ⟨_, hf'⟩ := logFine_cons hf
+    exact any_sync hc hprompt (h hf')
 
 /-! ### `edit_insert` -/
 
